@@ -15,6 +15,7 @@ func init() {
 			c01Frames(c)
 			helperReadDataRules(c, "C16")
 			helperReadMessageRules(c, "C16")
+			helperNextReaderRules(c, "C16")
 			// a request or response cut inside the head must not complete the handshake
 			serverUpgraderRules(c, "C16")
 			dialerUpgradeRules(c, "C16")
